@@ -16,6 +16,11 @@ Proof. vm_compute. repeat split; reflexivity. Qed.
 Theorem C15_all_classes_registered : gen_unregistered = [].
 Proof. reflexivity. Qed.
 
+(* the fields still have their declared widths (frozen reference in Lang/MsgCodec.v): a field
+   that was narrowed would make the constructor truncate a value the declaration admits *)
+Theorem C15_declared_widths : widths_conform gen_msg_widths = true.
+Proof. vm_compute. reflexivity. Qed.
+
 (* every message (any field values that the struct can hold; arrays of any
    length with any pattern of undefined entries) comes back as itself *)
 Definition roundtrip (t : list mclass) : Prop :=
